@@ -391,9 +391,9 @@ func verifC09EnvText(r *verifutil.Rand, t reflect.Type) string {
 	switch t.Kind() {
 	case reflect.String:
 		if t == reflect.TypeOf(verifC09Unm("")) {
-			return r.Pick("v", "", "ERRx", "a,b")
+			return r.Pick("v", "", "ERRx", "a,b", "k=v=", "=")
 		}
-		return r.Pick("new", "", "a,b", "with space")
+		return r.Pick("new", "", "a,b", "with space", "k=v", "=", "a==", " x=1&y=2 ", "$a%b#c:d")
 	case reflect.Int:
 		return r.Pick("7", "-3", "+4", "2147483647", "2147483648", "-2147483648", "-2147483649", "1_0", "0x10", " 1", "")
 	case reflect.Uint:
@@ -403,7 +403,7 @@ func verifC09EnvText(r *verifutil.Rand, t reflect.Type) string {
 	case reflect.Bool:
 		return r.Pick("yes", "no", "true", "false", "TRUE", "No", "1", "maybe", "")
 	case reflect.Slice:
-		return r.Pick("", "a", "a,b", "1,2", "1.5,2", "1,x", ",", "4294967296", "a,,b")
+		return r.Pick("", "a", "a,b", "1,2", "1.5,2", "1,x", ",", "4294967296", "a,,b", "a=b,c==", "=")
 	}
 	return r.Pick("", "x", "1")
 }
@@ -598,14 +598,17 @@ type verifC09Enc struct {
 	env  string
 }
 
-var verifC09StrCand = []string{"debug", "warn", "file", "syslog", "mpegts", "fmp4", "http", "jwt", "optional", "strict", "tcp", "udp", "multicast",
+var verifC09StrCand = []string{"sha256:j1tsRqDEw9xvq/D7/9tMx6Jh/jMhk3UfjwIB2f1zgMo=", "p=w$d#&", "debug", "warn", "file", "syslog", "mpegts", "fmp4", "http", "jwt", "optional", "strict", "tcp", "udp", "multicast",
 	"digest", "read", "playback", "npt", "clock", "webtransport", "H264", "Opus", "user1", "10s", "1d", "1M", "512K", "1.2.3.4", "10.0.0.0/8"}
 
 // value encodings of a parameter type: the same value as YAML and as environment text
 func verifC09Encodings(t reflect.Type) []verifC09Enc {
 	switch t {
 	case reflect.TypeOf(""):
-		return []verifC09Enc{{"v1", "v1"}, {"", ""}, {"a b:c", "a b:c"}}
+		// texts the environment path could mangle: '=', ',', ':', '$', '%', '#', quotes, backslash, blanks at the ends, unicode
+		return []verifC09Enc{{"rtsp://h/s?channel=1&subtype=0", "rtsp://h/s?channel=1&subtype=0"}, {"", ""},
+			{" a b:c,d$e%f#g'h\"i\\j \u00e9\u4e2d ", " a b:c,d$e%f#g'h\"i\\j \u00e9\u4e2d "}, {"=", "="}, {"=lead", "=lead"}, {"cmd --key=value --pad==", "cmd --key=value --pad=="},
+			{"v1", "v1"}, {"$MTX_PATH %path #x", "$MTX_PATH %path #x"}}
 	case reflect.TypeOf(false):
 		return []verifC09Enc{{true, "yes"}, {false, "no"}, {true, "true"}, {false, "FALSE"}}
 	case reflect.TypeOf(int(0)):
@@ -615,7 +618,8 @@ func verifC09Encodings(t reflect.Type) []verifC09Enc {
 	case reflect.TypeOf(float64(0)):
 		return []verifC09Enc{{1.5, "1.5"}, {-2.0, "-2"}}
 	case reflect.TypeOf([]string{}):
-		return []verifC09Enc{{[]any{"a", "b"}, "a,b"}, {[]any{"x"}, "x"}, {[]any{}, ""}}
+		return []verifC09Enc{{[]any{"a=b", "c=="}, "a=b,c=="}, {[]any{"x"}, "x"}, {[]any{}, ""}, {[]any{" a:b ", "$c%d#e", "\u00e9"}, " a:b ,$c%d#e,\u00e9"},
+			{[]any{"="}, "="}}
 	case reflect.TypeOf([]uint{}):
 		return []verifC09Enc{{[]any{1, 2}, "1,2"}, {[]any{}, ""}}
 	case reflect.TypeOf([]float64{}):
@@ -840,6 +844,12 @@ var verifC09Order = [][4]string{
 	{"MTX_PATHS_CAM1_RECORDDELETEAFTER", "paths:\n  cam1:\n    recordDeleteAfter: 2d", "3d", "paths:\n  cam1:\n    recordDeleteAfter: 3d"},
 	{"MTX_AUTHINTERNALUSERS_0_USER", "authInternalUsers:\n- user: alice\n  pass: x", "bob", "authInternalUsers:\n- user: bob\n  pass: x"},
 	{"RTSP_READTIMEOUT", "readTimeout: 5s", "7s", "readTimeout: 7s"},
+	// values containing '=' (query strings, base64 padding, key=value arguments)
+	{"MTX_PATHS_CAM1_SOURCE", "paths:\n  cam1:\n    source: rtsp://h/x", "rtsp://h/s?channel=1&subtype=0", "paths:\n  cam1:\n    source: 'rtsp://h/s?channel=1&subtype=0'"},
+	{"MTX_PATHDEFAULTS_RUNONREADY", "pathDefaults:\n  runOnReady: a", "cmd --key=value --pad==", "pathDefaults:\n  runOnReady: 'cmd --key=value --pad=='"},
+	{"MTX_AUTHINTERNALUSERS_0_PASS", "authInternalUsers:\n- user: alice\n  pass: x", "sha256:j1tsRqDEw9xvq/D7/9tMx6Jh/jMhk3UfjwIB2f1zgMo=", "authInternalUsers:\n- user: alice\n  pass: 'sha256:j1tsRqDEw9xvq/D7/9tMx6Jh/jMhk3UfjwIB2f1zgMo='"},
+	{"MTX_RUNONCONNECT", "runOnConnect: a", "=", "runOnConnect: '='"},
+	{"MTX_HLSCDNSECRET", "hlsCDNSecret: a", "=x=", "hlsCDNSecret: '=x='"},
 }
 
 // ---------- long struct lists of the real configuration ----------
